@@ -33,6 +33,7 @@ Definition split_msh (content : str) : result (list str * ec) :=
       let fields := bsplit fs (first_line content) in
       do seps <- nth_str fields 1;
       if negb (nodupb beqb seps) then Err (HL7 EInvalidEncodingChars) else
+      if existsb is_space seps then Err (HL7 EInvalidEncodingChars) else
       match seps with
       | [c; r; e; s] => Ok (fields, mk_ec fs c r e s None)
       | [c; r; e; s; t] =>
